@@ -87,7 +87,7 @@ PL = "moptipyapps.ttp.plan_length"
 GE = "moptipyapps.ttp.game_encoding"
 PLANS["C08"] = Plan(
     "C08", "other",
-    functions=[PL + ":game_plan_length"],
+    functions=[PL + ":game_plan_length", PL + ":GamePlanLength.__init__"],
     bounded=[bounded.ttp_plan.harness_c08],
     explanation="proved: game_plan_length equals the recursive tournament-walk specification (location per day, away venue, "
                 "stay/return for home games, bye penalty, return leg) for every plan with entries in -n..n and every "
@@ -175,21 +175,30 @@ PLANS["C09"] = Plan(
 
 PLANS["C18"] = Plan(
     "C18", "other",
+    functions=["moptipyapps.tsp.instance:_matrix_from_edge_weights#UPPER_ROW",
+               "moptipyapps.tsp.instance:_matrix_from_edge_weights#LOWER_DIAG_ROW",
+               "moptipyapps.tsp.instance:_matrix_from_edge_weights#UPPER_DIAG_ROW"],
+    lemmas=["uoff_closed", "loff_closed", "udoff_closed", "mul_even"],
     extra=[contracts.tsplib.prove_c18],
     bounded=[bounded.tsplib.harness],
-    explanation="proved: the operation DAGs of __nint, __coord_to_rad, __dist_2deuc, __dist_2dceil, __dist_att, __dist_loglat "
+    explanation="proved: the index walkers of the explicit formats UPPER_ROW, LOWER_DIAG_ROW, UPPER_DIAG_ROW (the real function "
+                "with the format string fixed, other branches statically dead) fill res[a,b] = res[b,a] = ints[Off(a) + ...] "
+                "exactly as TSPLIB95 lays the triangle out (recursive offset functions with closed forms proved by "
+                "induction), zero diagonal, all indices in range for every n; the operation DAGs of __nint, __coord_to_rad, __dist_2deuc, __dist_2dceil, __dist_att, __dist_loglat "
                 "(read from /repo, int = truncation, sqrt/cos/acos uninterpreted) are identical to the TSPLIB95 definitions. "
                 "bounded: write/read round trip, the four explicit formats under random wrapping, coordinate instances vs an "
                 "independent implementation; exhaustive over the data: all 31 shipped optimal tours",
     assumptions=["GEO uses truncating degree extraction, PI = 3.141592, RRR = 6378.388 (the reading of TSPLIB95 that reproduces "
-                 "the published optima)", "index walkers of the explicit formats and the tokenizer: bounded only"],
+                 "the published optima)", "FULL_MATRIX (numpy reshape) and the tokenizer / __read_n_ints: bounded only",
+                 "assumed contract of __read_n_ints: returns exactly k integers of magnitude <= 10^12"],
 )
 
 PLANS["C20"] = Plan(
     "C20", "other",
-    functions=["moptipyapps.order1d.distances:swap_distance"],
+    functions=["moptipyapps.order1d.distances:swap_distance", "moptipyapps.order1d.instance:Instance.__init__#distances"],
     bounded=[bounded.order1d.harness],
-    explanation="proved: swap_distance never leaves its arrays, reads the scratch flags only after writing them, returns a value "
+    explanation="proved: the distance matrix built by order1d.Instance.__init__ is |i - j| (block contract on the real loops); "
+                "swap_distance never leaves its arrays, reads the scratch flags only after writing them, returns a value "
                 "in [0, n] (for every x with entries in range). bounded/exhaustive: swap_distance == minimum number of "
                 "transpositions (BFS) for all permutations up to length 6 (thorough: 7); instance construction clauses "
                 "(merging, representative index, |i-j|, flow clauses) on generated sequences with duplicates and ties",
@@ -275,7 +284,9 @@ _WRAP_OBJ = [OB + "bin_count_and_empty:BinCountAndEmpty.__init__", OB + "bin_cou
 _WRAP_TTP = [ER + ":Errors.__init__", ER + ":Errors.evaluate"]
 PLANS["C01"].functions += _WRAP_ENC + ["moptipyapps.binpacking2d.instance:Instance.__new__#dtype"]
 PLANS["C13"].functions += ["moptipyapps.binpacking2d.instance:Instance.__new__#dtype"]
-PLANS["C02"].functions += _WRAP_OBJ
+PLANS["C02"].functions += _WRAP_OBJ + [OB + "bin_count_and_last_small:BinCountAndLastSmall.to_bin_count",
+                                       OB + "bin_count_and_last_empty:BinCountAndLastEmpty.to_bin_count"]
+PLANS["C02"].lemmas += ["dominance"]
 PLANS["C07"].functions += _WRAP_TTP
 PLANS["C07"].lemmas += ["even_prod"]
 PLANS["C13"].functions += _WRAP_ENC + _WRAP_OBJ + _WRAP_TTP + ["moptipyapps.tsp.fea1p1_revn:TSPFEA1p1revn.solve"]
